@@ -1,6 +1,7 @@
 //! ohg-run: executes case files against the real crate (rebuilt from /repo's working tree) and
 //! prints one canonical result line per case: `<id> <result>`.
 mod adv;
+mod lax_generic;
 mod lax_ops;
 mod strict_ops;
 mod sx;
@@ -35,6 +36,9 @@ fn run(case: &Sx) -> Sx {
     let args = &owned[..];
     let r = std::panic::catch_unwind(|| {
         // lax / term ops keep their backend argument; strict ops select the module by it
+        if let Some(r) = lax_generic::dispatch(&op, args) {
+            return Some(r);
+        }
         if let Some(r) = lax_ops::dispatch(&op, args) {
             return Some(r);
         }
